@@ -126,6 +126,8 @@ def build_config(topo):
             cfg["tags"] = d["tags"]
         if name == "bd_plunger":
             cfg["request_ball_events"] = "ev_req_plunger"
+        if name == "bd_stage":
+            cfg["request_ball_events"] = "ev_req_stage"
         if name == topo["source"]:
             cfg["eject_events"] = "ev_add_ball"      # manual request of one ball for the playfield
         if d.get("idle_missing_ball_timeout_s"):
@@ -207,6 +209,7 @@ class PDev:
         self.rest_since = {}                     # ball id -> time it came to rest here
         self.plunge_pending = False
         self.entrance_busy_until = -1.0
+        self.last_launched_ball = None
         self.leaving_until = -1.0                # entrance-counted: an ejected ball is on its way out until then
         self.full_timeout = d.get("full_timeout_ms", 0) / 1000.0   # >0: the filling ball rests on the entrance switch
         self.entrance_held = False                                   # a ball rests on the entrance switch
@@ -279,6 +282,7 @@ class World:
                       "pf_hits": 0, "fault_weak": 0, "fault_back_early": 0, "fault_back_late": 0, "fault_late": 0,
                       "fault_stray": 0, "pulse_on_empty": 0, "overflow_bounce": 0, "switch_reports": 0}
         self.full_fire = []       # evidence for "fired towards a device that has no room"
+        self.fallback_fire = []   # launches towards a device whose own ejected ball is physically falling back into it
         self.room_checks = 0
         self.deliveries = {}      # target name -> balls that physically arrived there after an MPF/player launch
         self.launch_log = []      # (t, dev, outcome) for C05 retry clause
@@ -435,6 +439,19 @@ class World:
                 self.full_fire.append({"t": round(self.now(), 3), "source": pd.name, "target": pd.target,
                                        "resting_in_target": len(settled), "inbound_by_mpf": inbound,
                                        "capacity": td.capacity})
+            else:
+                # balls the target kicked out which are physically on their way back into it (weak kick / roll back).
+                # Whether such a ball still blocks its slot depends on whether MPF has already confirmed that eject;
+                # the oracle (which may read MPF's state) decides, the world only records the physical fact.
+                # (only the ball of the target's most recent kick: an older one belongs to an eject which MPF may
+                # rightfully have confirmed by timeout long ago)
+                returning = sum(1 for b, loc in self.balls.items()
+                                if loc[0] == "transit" and loc[1] == pd.target and loc[2] == pd.target and
+                                b == td.last_launched_ball)
+                if returning and len(settled) + inbound + returning >= td.capacity:
+                    self.fallback_fire.append({"t": round(self.now(), 3), "source": pd.name, "target": pd.target,
+                                               "resting_in_target": len(settled), "inbound_by_mpf": inbound,
+                                               "falling_back_into_target": returning, "capacity": td.capacity})
         self.stats["launches"] += 1
         self.stats["fault_" + outcome] = self.stats.get("fault_" + outcome, 0) + (outcome != "ok")
         leave = self._u(0.01, 0.08)
@@ -443,6 +460,7 @@ class World:
         else:
             pd.leaving_until = self.now() + leave
         self._log("launch", pd.name, outcome, ball)
+        pd.last_launched_ball = ball
         self.after(leave, self._ball_leaves, pd, slot, ball, outcome, by)
 
     def _ball_leaves(self, pd, slot, ball, outcome, by):
